@@ -476,6 +476,14 @@ func suiteC08Calls(cfg Config, res *Result) {
 		cases = append(cases, pc)
 		wantDirect[pc.Key()] = out
 	}
+	// calls on something that is nothing: a missing name or key is the empty value, a nil held in a
+	// list item, a map entry or a struct field is "not a function"
+	for _, callee := range []string{"nl.0", "nl.1", "nm.k", "nm.zz", "ns.A", "ns.B", "nosuch", "n", "nl.0.x", "nm.k.y", "nl[0]", "nm[\"k\"]"} {
+		for _, args := range []string{"()", "(1)", "(\"x\", i)"} {
+			nct := CtxTerm{Names: []string{"nl", "nm", "ns", "n", "i"}, Vals: []VT{vList("any", vNil(), vStr("x")), vSMap([]string{"k"}, []VT{vNil()}), vStruct(vNil(), vInt(1), vNil()), vNil(), vInt(2)}}
+			cases = append(cases, ProgCase{Src: "{{ " + callee + args + " }}|{{ " + callee + " }}", Ctx: &nct, Label: "call-on-nothing"})
+		}
+	}
 	runProgCases(cfg, res, cases, "c08c", nil, func(c ProgCase, o ImplOutcome) *Finding {
 		if want, ok := wantDirect[c.Key()]; ok && (o.Class != "ok" || o.Out != want) {
 			return &Finding{Kind: "oracle", Proj: "resolver", Sig: "c08-call-wrong-value", Case: c.String(), Impl: o.Canon() + " " + o.Msg, Model: "renders like the function's result bound directly: ok " + hxb(want)}
